@@ -602,6 +602,26 @@ add({"name": "gz_inflate_loop", "file": "dfs/img_gzfile.cc",
                (r"\bdo\b(\s*\{\s*stream\.next_out)", r"do GZ_INNER_CONTRACT\1", 1)],
      "dropped": ["static_asserts on buffer sizes"]})
 
+# ---- driveselector.cc (C07 command-line clause): SurfaceSelector::coerce / parse: no exception escapes parse ---------------
+THROW_STD = (r"throw std::(\w+)\((?:[^()]|\([^()]*\))*\);", r"{ VERIF_THROW(std_\1, 0); return 0; }")
+add({"name": "SurfaceSelector_coerce_long", "file": DS, "anchor": r"unsigned int SurfaceSelector::coerce\(long int ld\)",
+     "sig": "static unsigned int SurfaceSelector_coerce_long(long int ld)",
+     "rules": [(THROW_STD[0], THROW_STD[1], ">=1"), (r"std::numeric_limits<unsigned int>::max\(\)", "UINT_MAX", ">=1"),
+               (r"static_cast<unsigned int>\(", "(unsigned int)(", ">=0")]})
+add({"name": "SurfaceSelector_parse", "file": DS,
+     "anchor": r"std::optional<SurfaceSelector> SurfaceSelector::parse\(const std::string& s, size_t\* end, std::string& error\)",
+     "sig": "static struct opt_surface SurfaceSelector_parse(const struct argstr *s, size_t *end)",
+     "rules": [(r"\btry\b", "/* guarded block: handlers below */", 1),
+               (r"n = std::stol\(s, end, 10\);", "n = stol_model(s, end); if (g_exc) goto handlers_;", 1),
+               (r"d = coerce\(n\);", "d = SurfaceSelector_coerce_long(n); if (g_exc) goto handlers_;", 1),
+               (r"catch \(BadSurfaceSelector& \w+\)", "if (0) handlers_: if (exc_caught(EXC_BadSurfaceSelector))", 1),
+               (r"catch \(std::(\w+)& \w+\)", r"else if (exc_caught(EXC_std_\1))", ">=1"),
+               (r"error = ebs\.what\(\);", "g_diag++;  /* diagnostic text dropped */", "=0or1"),
+               (r"std::ostringstream ss;.*?error = ss\.str\(\);", "g_diag++;  /* diagnostic text dropped */", ">=1"),
+               (r"return std::nullopt;", "{ struct opt_surface none_; none_.has = 0; none_.val = 0; return none_; }", ">=1"),
+               (r"return SurfaceSelector\(d\);", "{ struct opt_surface r_; r_.has = (g_exc == EXC_NONE); r_.val = d; return r_; }  /* an exception no handler caught propagates */", 1)],
+     "dropped": ["diagnostic texts"]})
+
 # ---- cmd_dump.cc (C04): dump-sector's argument check and address computation -----------------------------------------
 add({"name": "dump_get_arg", "file": "dfs/cmd_dump.cc",
      "anchor": r"std::optional<long int> get_arg\(const std::string& which_arg,\s*const std::string& the_arg,\s*const long int upper_limit\)",
